@@ -272,25 +272,57 @@ Proof.
     + intros vals l ->. unfold ev_entries. cbn [flat_map fst snd app assoc]. rewrite bytes_eqb_refl. reflexivity.
 Qed.
 
-(* the round trip with strict and non-strict enum columns *)
-Theorem roundtrip2 f tc wf doc e :
+(* the premises of the round trip that do not concern CR *)
+Definition rt_premises_sharp (empty_null : bool) (nrows : nat) (f : frame) : bool :=
+  negb (is_nilb f)
+  && forallb (fun nc => check_name (fst nc) && col_in_int64 (snd nc) && enum_side_ok empty_null (snd nc)
+                        && Nat.eqb (col_len (snd nc)) nrows) f
+  && negb (has_dup (map fst f)).
+
+Lemma sharp_parts e n (nc : bytes * column) :
+  check_name (fst nc) && col_in_int64 (snd nc) && enum_side_ok e (snd nc) && Nat.eqb (col_len (snd nc)) n = true ->
+  check_name (fst nc) = true /\ col_in_int64 (snd nc) = true /\ enum_side_ok e (snd nc) = true /\
+  col_len (snd nc) = n.
+Proof.
+  intros H. apply andb_true_iff in H as [H H4]. apply andb_true_iff in H as [H H3].
+  apply andb_true_iff in H as [H1 H2]. apply Nat.eqb_eq in H4. repeat split; assumption.
+Qed.
+
+Lemma rt_premises_weaken e n f : rt_premises e n f = true -> rt_premises_sharp e n f = true.
+Proof.
+  unfold rt_premises, rt_premises_sharp. intros H. apply andb_true_iff in H as [H Hd].
+  apply andb_true_iff in H as [Hn Hall]. rewrite Hn, Hd, !andb_true_r. cbn [andb].
+  rewrite forallb_forall in *. intros nc Hnc. destruct (prem_parts e n nc (Hall nc Hnc)) as (P1 & _ & _ & P4 & P5 & P6).
+  rewrite P1, P4, P5, P6, Nat.eqb_refl. reflexivity.
+Qed.
+
+(* the records ToCSV hands to the csv.Writer *)
+Definition written_records (n : nat) (hdr : bool) (wf : frame) : list (list bytes) :=
+  let body := map (row_at (map (fun nc : bytes * column => col_strings (snd nc)) wf)) (seq 0 n) in
+  if hdr then map fst wf :: body else body.
+
+(* the core: what is needed about CR is only that the scanner returns the records as written, i.e. (rec_ok) that
+   no record's LAST field ends in CR *)
+Theorem roundtrip_core f tc wf doc e :
   iter_cols f tc = Ok wf ->
   to_csv format_float f tc = Ok doc ->
-  rt_premises e (frame_len f) wf = true ->
+  rt_premises_sharp e (frame_len f) wf = true ->
+  forallb rec_ok (written_records (frame_len f) (tc_header tc) wf) = true ->
   forallb (fun nc => card_ok e (snd nc)) wf = true ->
   read_csv_spec atoi parse_float atob (read_conf_for e (tc_header tc) wf) doc
   = Ok (map (fun nc => (fst nc, readback_col e (snd nc))) wf).
 Proof.
-  intros Hiter Hcsv Hprem Hcard.
-  unfold rt_premises in Hprem. apply andb_true_iff in Hprem as [Hprem Hdup].
+  intros Hiter Hcsv Hprem Hrecs Hcard.
+  unfold rt_premises_sharp in Hprem. apply andb_true_iff in Hprem as [Hprem Hdup].
   apply andb_true_iff in Hprem as [Hne Hcols]. rewrite forallb_forall in Hcols.
   assert (wf <> []) as Hwf by (destruct wf; [discriminate | discriminate]).
+  unfold written_records in Hrecs.
   set (n := frame_len f) in *.
-  set (strs := map (fun nc : bytes * column => col_strings (snd nc)) wf).
-  set (names := map fst wf).
+  set (strs := map (fun nc : bytes * column => col_strings (snd nc)) wf) in *.
+  set (names := map fst wf) in *.
   assert (Forall (fun s : list bytes => length s = n) strs) as Hlen.
   { apply Forall_forall. intros s Hs. apply in_map_iff in Hs as (nc & <- & Hnc).
-    rewrite col_strings_length. apply (prem_parts e n nc (Hcols nc Hnc)). }
+    rewrite col_strings_length. apply (sharp_parts e n nc (Hcols nc Hnc)). }
   unfold to_csv, to_csv_records in Hcsv. rewrite Hiter in Hcsv. cbn [obind] in Hcsv.
   fold strs names n in Hcsv.
   rewrite (records_ok strs n 0) in Hcsv
@@ -298,22 +330,7 @@ Proof.
   cbn [obind] in Hcsv. inversion Hcsv as [Hdoc]. clear Hcsv.
   set (body := map (row_at strs) (seq 0 n)) in *.
   set (recs := if tc_header tc then names :: body else body) in *.
-  assert (forall s, In s names -> no_cr s = true) as Hnames.
-  { intros s Hs. apply in_map_iff in Hs as (nc & <- & Hnc). apply (prem_parts e n nc (Hcols nc Hnc)). }
   assert (names <> []) as Hnn by (unfold names; destruct wf; [congruence | discriminate]).
-  assert (forallb rec_ok body = true) as Hbody.
-  { apply forallb_forall. intros r Hr. apply in_map_iff in Hr as (i & <- & Hi). apply in_seq in Hi.
-    apply rec_ok_no_cr.
-    - unfold row_at, strs. destruct wf; [congruence | discriminate].
-    - intros s Hs. unfold row_at in Hs. apply in_map_iff in Hs as (col & <- & Hcol).
-      assert (length col = n) as Hl by (rewrite Forall_forall in Hlen; apply Hlen; exact Hcol).
-      unfold strs in Hcol. apply in_map_iff in Hcol as (nc & <- & Hnc).
-      apply (col_strings_no_cr format_float parse_float float_roundtrip (snd nc)).
-      + apply (prem_parts e n nc (Hcols nc Hnc)).
-      + apply nth_In. rewrite Hl. lia. }
-  assert (forallb rec_ok recs = true) as Hrecs.
-  { unfold recs. destruct (tc_header tc); [|exact Hbody]. cbn [forallb]. rewrite Hbody, andb_true_r.
-    apply rec_ok_no_cr; assumption. }
   unfold read_csv_spec. cbn [read_conf_for cf_delim].
   rewrite scan_writer_output by (reflexivity || exact Hrecs).
   unfold read_rows. cbn [read_conf_for cf_headers cf_ignore_empty cf_alias cf_rename_dup cf_enum_vals].
@@ -333,7 +350,7 @@ Proof.
     rewrite <- (Hlen s Hs). apply firstn_all. }
   rewrite Hall.
   assert (has_dup names = false) as Hdf.
-  { unfold names. destruct (has_dup (map fst wf)); [discriminate Hdup | reflexivity]. }
+  { destruct (has_dup names); [discriminate Hdup | reflexivity]. }
   assert (NoDup names) as Hnd by (apply has_dup_nodup; exact Hdf).
   unfold names, strs.
   fold (ev_entries wf).
@@ -342,12 +359,129 @@ Proof.
     rewrite Hdf. cbn [negb].
     assert (forallb check_name names = true) as Hcn.
     { apply forallb_forall. intros s Hs. apply in_map_iff in Hs as (nc & <- & Hnc).
-      apply (prem_parts e n nc (Hcols nc Hnc)). }
+      apply (sharp_parts e n nc (Hcols nc Hnc)). }
     rewrite Hcn. reflexivity.
   - auto.
   - apply forallb_forall. intros nc Hnc. unfold col_ok2.
     rewrite forallb_forall in Hcard. rewrite (Hcard nc Hnc), andb_true_r.
-    destruct (prem_parts e n nc (Hcols nc Hnc)) as (_ & _ & _ & P4 & P5 & _). rewrite P4, P5. reflexivity.
+    destruct (sharp_parts e n nc (Hcols nc Hnc)) as (_ & P4 & P5 & _). rewrite P4, P5. reflexivity.
+Qed.
+
+(* no CR anywhere: every record is fine *)
+Lemma written_records_no_cr e n hdr wf :
+  rt_premises e n wf = true -> forallb rec_ok (written_records n hdr wf) = true.
+Proof.
+  intros Hprem. unfold rt_premises in Hprem. apply andb_true_iff in Hprem as [Hprem Hdup].
+  apply andb_true_iff in Hprem as [Hne Hcols]. rewrite forallb_forall in Hcols.
+  assert (wf <> []) as Hwf by (destruct wf; [discriminate | discriminate]).
+  unfold written_records.
+  set (strs := map (fun nc : bytes * column => col_strings (snd nc)) wf).
+  set (names := map fst wf).
+  assert (Forall (fun s : list bytes => length s = n) strs) as Hlen.
+  { apply Forall_forall. intros s Hs. apply in_map_iff in Hs as (nc & <- & Hnc).
+    rewrite col_strings_length. apply (prem_parts e n nc (Hcols nc Hnc)). }
+  assert (forall s, In s names -> no_cr s = true) as Hnames.
+  { intros s Hs. apply in_map_iff in Hs as (nc & <- & Hnc). apply (prem_parts e n nc (Hcols nc Hnc)). }
+  assert (names <> []) as Hnn by (unfold names; destruct wf; [congruence | discriminate]).
+  assert (forallb rec_ok (map (row_at strs) (seq 0 n)) = true) as Hbody.
+  { apply forallb_forall. intros r Hr. apply in_map_iff in Hr as (i & <- & Hi). apply in_seq in Hi.
+    apply rec_ok_no_cr.
+    - unfold row_at, strs. destruct wf; [congruence | discriminate].
+    - intros s Hs. unfold row_at in Hs. apply in_map_iff in Hs as (col & <- & Hcol).
+      assert (length col = n) as Hl by (rewrite Forall_forall in Hlen; apply Hlen; exact Hcol).
+      unfold strs in Hcol. apply in_map_iff in Hcol as (nc & <- & Hnc).
+      apply (col_strings_no_cr format_float parse_float float_roundtrip (snd nc)).
+      + apply (prem_parts e n nc (Hcols nc Hnc)).
+      + apply nth_In. rewrite Hl. lia. }
+  destruct hdr; [|exact Hbody]. cbn [forallb]. rewrite Hbody, andb_true_r.
+  apply rec_ok_no_cr; assumption.
+Qed.
+
+(* the round trip with strict and non-strict enum columns *)
+Theorem roundtrip2 f tc wf doc e :
+  iter_cols f tc = Ok wf ->
+  to_csv format_float f tc = Ok doc ->
+  rt_premises e (frame_len f) wf = true ->
+  forallb (fun nc => card_ok e (snd nc)) wf = true ->
+  read_csv_spec atoi parse_float atob (read_conf_for e (tc_header tc) wf) doc
+  = Ok (map (fun nc => (fst nc, readback_col e (snd nc))) wf).
+Proof.
+  intros Hiter Hcsv Hprem Hcard. apply roundtrip_core with (f := f); try assumption.
+  - apply rt_premises_weaken. exact Hprem.
+  - apply (written_records_no_cr e). exact Hprem.
+Qed.
+
+(* CR is allowed everywhere except at the END of a string of the LAST written column (and at the end of the last
+   column name when the header row is written) *)
+Definition col_no_trailing_cr (c : column) : bool :=
+  match c with
+  | ColString l | ColEnum _ l => forallb (fun o => match o with Some s => negb (ends_cr s) | None => true end) l
+  | _ => true
+  end.
+
+Definition last_col_ok (hdr : bool) (wf : frame) : bool :=
+  let nc := last wf ([], ColNone) in
+  (negb hdr || negb (ends_cr (fst nc))) && col_no_trailing_cr (snd nc).
+
+Lemma last_map {A B} (g : A -> B) (l : list A) d : last (map g l) (g d) = g (last l d).
+Proof. induction l as [|x l IH]; [reflexivity|]. destruct l; [reflexivity|]. exact IH. Qed.
+
+Lemma col_strings_no_trailing_cr c s : col_no_trailing_cr c = true -> In s (col_strings c) -> ends_cr s = false.
+Proof.
+  intros Hc Hin. destruct c as [l|l|l|l|vals l|]; cbn [col_strings] in Hin.
+  - apply in_map_iff in Hin as (z & <- & _). apply no_cr_ends, itoa_no_cr.
+  - apply in_map_iff in Hin as (x & <- & _). destruct (is_nan_bits x) eqn:E; [reflexivity|].
+    apply no_cr_ends. apply (float_roundtrip x E).
+  - apply in_map_iff in Hin as (b & <- & _). apply no_cr_ends, format_bool_no_cr.
+  - apply in_map_iff in Hin as (o & <- & Ho). cbn [col_no_trailing_cr] in Hc. rewrite forallb_forall in Hc.
+    specialize (Hc o Ho). destruct o; [apply negb_true_iff; exact Hc | reflexivity].
+  - apply in_map_iff in Hin as (o & <- & Ho). cbn [col_no_trailing_cr] in Hc. rewrite forallb_forall in Hc.
+    specialize (Hc o Ho). destruct o; [apply negb_true_iff; exact Hc | reflexivity].
+  - destruct Hin.
+Qed.
+
+Lemma written_records_last_ok e n hdr wf :
+  rt_premises_sharp e n wf = true -> last_col_ok hdr wf = true ->
+  forallb rec_ok (written_records n hdr wf) = true.
+Proof.
+  intros Hprem Hlast. unfold rt_premises_sharp in Hprem. apply andb_true_iff in Hprem as [Hprem Hdup].
+  apply andb_true_iff in Hprem as [Hne Hcols]. rewrite forallb_forall in Hcols.
+  assert (wf <> []) as Hwf by (destruct wf; [discriminate | discriminate]).
+  unfold last_col_ok in Hlast. apply andb_true_iff in Hlast as [Hln Hlc].
+  set (lc := last wf ([], ColNone)) in *.
+  assert (In lc wf) as Hlcin.
+  { destruct (exists_last Hwf) as (l' & a & E). unfold lc. rewrite E, last_last. apply in_or_app. right. left. reflexivity. }
+  unfold written_records.
+  set (strs := map (fun nc : bytes * column => col_strings (snd nc)) wf).
+  assert (forallb rec_ok (map (row_at strs) (seq 0 n)) = true) as Hbody.
+  { apply forallb_forall. intros r Hr. apply in_map_iff in Hr as (i & <- & Hi). apply in_seq in Hi.
+    unfold rec_ok. apply andb_true_iff. split.
+    - unfold row_at, strs. destruct wf; [congruence | reflexivity].
+    - apply negb_true_iff. unfold row_at, strs. rewrite map_map.
+      match goal with |- ends_cr (last (map ?g0 wf) ?d0) = false => set (g := g0); set (d := d0) end.
+      assert (last (map g wf) d = g lc) as E.
+      { replace d with (g ([], ColNone)) by (unfold g, d; destruct i; reflexivity). apply last_map. }
+      change (ends_cr (last (map g wf) d) = false). rewrite E. unfold g. apply (col_strings_no_trailing_cr (snd lc) _ Hlc).
+      apply nth_In. rewrite col_strings_length.
+      destruct (sharp_parts e n lc (Hcols lc Hlcin)) as (_ & _ & _ & P). rewrite P. lia. }
+  destruct hdr; [|exact Hbody]. cbn [forallb]. rewrite Hbody, andb_true_r.
+  unfold rec_ok. apply andb_true_iff. split.
+  - destruct wf; [congruence | reflexivity].
+  - change (@nil N) with (fst (@nil N, ColNone)). rewrite last_map. fold lc.
+    cbn [negb orb] in Hln. exact Hln.
+Qed.
+
+Theorem roundtrip_sharp f tc wf doc e :
+  iter_cols f tc = Ok wf ->
+  to_csv format_float f tc = Ok doc ->
+  rt_premises_sharp e (frame_len f) wf = true ->
+  last_col_ok (tc_header tc) wf = true ->
+  forallb (fun nc => card_ok e (snd nc)) wf = true ->
+  read_csv_spec atoi parse_float atob (read_conf_for e (tc_header tc) wf) doc
+  = Ok (map (fun nc => (fst nc, readback_col e (snd nc))) wf).
+Proof.
+  intros Hiter Hcsv Hprem Hlast Hcard. apply roundtrip_core with (f := f); try assumption.
+  apply (written_records_last_ok e); assumption.
 Qed.
 
 (* ================================================================ 2. through the buffer-level reader *)
@@ -859,3 +993,51 @@ Proof.
 Qed.
 
 End PhysicalColumns.
+
+(* ---------------------------------------------------------------- the strconv premise is satisfiable *)
+
+(* a formatter/parser pair that meets the premise on FormatFloat/ParseFloat (the decimal digits of the bit
+   pattern): the theorems above are not vacuous, and they do not depend on HOW floats are printed, only on the
+   three facts the premise lists *)
+Definition toy_format (x : N) : bytes := utoa x.
+Definition toy_parse (s : bytes) : option N := digits_val s 0.
+
+Lemma toy_float_roundtrip : forall x,
+  is_nan_bits x = false ->
+  toy_format x <> [] /\ no_cr (toy_format x) = true /\ toy_parse (toy_format x) = Some x.
+Proof.
+  intros x _. unfold toy_format, toy_parse. split; [|split; [|apply utoa_val]].
+  - pose proof (utoa_hd x) as H. destruct (utoa x); [discriminate H | discriminate].
+  - unfold no_cr. destruct (existsb (N.eqb c_cr) (utoa x)) eqn:E; [|reflexivity]. exfalso.
+    apply existsb_exists in E as (c & Hin & Hc). apply N.eqb_eq in Hc. subst c.
+    unfold utoa in Hin. apply udigits_chars in Hin as [[]|H]. discriminate H.
+Qed.
+
+(* ---------------------------------------------------------------- well-formed frames *)
+
+Section PhysicalWf.
+Variable format_float : N -> bytes.
+Variable parse_float : bytes -> option N.
+Hypothesis float_roundtrip : forall x,
+  is_nan_bits x = false ->
+  format_float x <> [] /\ no_cr (format_float x) = true /\ parse_float (format_float x) = Some x.
+
+(* wf_frame (equal physical lengths, index in range - with or without repetitions, in any order -, enum ranks
+   valid) is what every frame the library builds satisfies (C10); it makes abs defined *)
+Corollary roundtrip_physical_wf (f : frame) hdr doc e (chunks : list bytes) (term : rterm) :
+  wf_frame f = true -> NoDup (col_names f) ->
+  phys_premises e f = true ->
+  frame_to_csv format_float f (mkToConf hdr None) = Ok doc ->
+  Forall (fun c : bytes => c <> []) chunks -> concat chunks = doc -> (term = TEofSep \/ term = TEofWith) ->
+  exists t o g,
+    abs f = Ok t /\ observe_frame f = Ok o /\
+    read_csv_buf atoi parse_float atob (read_conf_for e hdr o) chunks term = Ok g /\
+    table_of (length (ix f)) g = norm_table e t.
+Proof.
+  intros Hwf Hnd Hprem Hcsv Hne Hcat Hterm. destruct (wf_abs f Hwf) as [t Ht].
+  destruct (roundtrip_physical_table format_float parse_float float_roundtrip f t hdr doc e chunks term)
+    as (o & g & H1 & H2 & H3); try assumption.
+  exists t, o, g. auto.
+Qed.
+
+End PhysicalWf.
